@@ -432,6 +432,15 @@ class PhasedFSimGate(gate_features.InterchangeableQubitsGate, raw_types.Gate):
             or cirq.is_parameterized(self.phi)
         )
 
+    def _parameter_names_(self) -> Set[str]:
+        return (
+            cirq.parameter_names(self.theta)
+            | cirq.parameter_names(self.zeta)
+            | cirq.parameter_names(self.chi)
+            | cirq.parameter_names(self.gamma)
+            | cirq.parameter_names(self.phi)
+        )
+
     def _has_unitary_(self):
         return not self._is_parameterized_()
 
